@@ -38,7 +38,8 @@ func cmdTimer(args []string) int {
 		}
 		log(obj{"ev": "session", "s": s, "base": baseUs})
 		et := Electiontrigger.NewTimerBasedElectionTrigger(baseUs*time.Microsecond, nil)
-		cb := func(blockHeight primitives.BlockHeight, view primitives.View, onElectionCB interfaces.OnElectionCallback) {}
+		cb := func(blockHeight primitives.BlockHeight, view primitives.View, onElectionCB interfaces.OnElectionCallback) {
+		}
 		// reader: prompt / slow / absent phases
 		mode := make(chan int, 1)
 		curMode := 0
